@@ -1232,6 +1232,11 @@ func (em *emitter) emitForRange(node *ast.ForRange) {
 	var indirectIndex, indirectElem int8
 	var indexType, elemType reflect.Type
 
+	// If an iteration variable is assigned, not declared, and it is not a
+	// local variable, the instruction OpRange sets a register and the variable
+	// is assigned from it at the beginning of every iteration.
+	nonLocalIndex, nonLocalElem := -1, -1
+
 	if len(vars) >= 1 && !isBlankIdentifier(vars[0]) {
 		name := vars[0].(*ast.Identifier).Name
 		indexType = em.typ(vars[0])
@@ -1244,8 +1249,11 @@ func (em *emitter) emitForRange(node *ast.ForRange) {
 			} else {
 				em.fb.bindVarReg(name, index)
 			}
-		} else {
+		} else if em.fb.declaredInFunc(name) {
 			index = em.fb.scopeLookup(name)
+		} else {
+			index = em.fb.newRegister(indexType.Kind())
+			nonLocalIndex, _ = em.varStore.nonLocalVarIndex(vars[0])
 		}
 	}
 
@@ -1261,8 +1269,11 @@ func (em *emitter) emitForRange(node *ast.ForRange) {
 			} else {
 				em.fb.bindVarReg(name, elem)
 			}
-		} else {
+		} else if em.fb.declaredInFunc(name) {
 			elem = em.fb.scopeLookup(name)
+		} else {
+			elem = em.fb.newRegister(elemType.Kind())
+			nonLocalElem, _ = em.varStore.nonLocalVarIndex(vars[1])
 		}
 	}
 
@@ -1279,6 +1290,12 @@ func (em *emitter) emitForRange(node *ast.ForRange) {
 	}
 	if indirectElem != 0 {
 		em.changeRegister(false, elem, indirectElem, elemType, elemType)
+	}
+	if nonLocalIndex != -1 {
+		em.fb.emitSetVar(false, index, nonLocalIndex, indexType.Kind())
+	}
+	if nonLocalElem != -1 {
+		em.fb.emitSetVar(false, elem, nonLocalElem, elemType.Kind())
 	}
 
 	em.emitNodes(node.Body)
